@@ -26,6 +26,7 @@
 *******************************************************************************/
 
 #include "intel-ipsec-mb.h"
+#include "include/clear_regs_mem.h"
 
 #ifndef JOB_API_SNOWV_H
 #define JOB_API_SNOWV_H
@@ -83,6 +84,11 @@ submit_snow_v_aead_job(IMB_MGR *state, IMB_JOB *job)
                 hkey_endpad[1].high = 0;
                 job = SUBMIT_JOB_SNOW_V_AEAD(job);
         }
+#ifdef SAFE_DATA
+        /* GHASH key H (and its table) and the endpad are derived from the key */
+        clear_mem(&gdata_key, sizeof(gdata_key));
+        clear_mem(hkey_endpad, sizeof(hkey_endpad));
+#endif
         return job;
 }
 
